@@ -457,6 +457,57 @@ def unfold_pipelines(fn: ast.AST, unknown: Set[str]) -> int:
                 done += 1
                 continue
             i += 1
+    # L = []; ... L.append(e) ...; later `for y in L: BODY` / `T.extend(L)`: the act is done where the element is collected
+    for v in sorted(unknown):
+        occ = [x for x in ast.walk(fn) if isinstance(x, ast.Name) and x.id == v]
+        inits = [st for b in _blocks(fn) for st in b if isinstance(st, ast.Assign) and len(st.targets) == 1 and isinstance(st.targets[0], ast.Name)
+                 and st.targets[0].id == v and _is_empty_list(st.value)]
+        if len(inits) != 1:
+            continue
+        apps = [c for c in ast.walk(fn) if isinstance(c, ast.Call) and isinstance(c.func, ast.Attribute) and c.func.attr == "append"
+                and isinstance(c.func.value, ast.Name) and c.func.value.id == v and len(c.args) == 1 and not c.keywords]
+        consumer = None
+        for b in _blocks(fn):
+            for st in b:
+                if isinstance(st, ast.For) and isinstance(st.iter, ast.Name) and st.iter.id == v and isinstance(st.target, ast.Name) and not st.orelse \
+                        and not any(isinstance(x, (ast.Break, ast.Continue, ast.Return)) for s_ in st.body for x in ast.walk(s_)):
+                    consumer = (b, st, "for")
+                elif isinstance(st, ast.Expr) and isinstance(st.value, ast.Call) and isinstance(st.value.func, ast.Attribute) and st.value.func.attr == "extend" \
+                        and len(st.value.args) == 1 and isinstance(st.value.args[0], ast.Name) and st.value.args[0].id == v:
+                    consumer = (b, st, "extend")
+        if consumer is None or not apps or len(occ) != 1 + len(apps) + 1:
+            continue
+        cb, cst, kind = consumer
+        if any(a.lineno >= cst.lineno for a in apps):
+            continue
+        for parent in ast.walk(fn):
+            for fld in _BLOCKS:
+                bb = getattr(parent, fld, None)
+                if not (isinstance(bb, list) and bb and isinstance(bb[0], ast.stmt)):
+                    continue
+                for k, st in enumerate(list(bb)):
+                    if isinstance(st, ast.Expr) and any(st.value is a for a in apps):
+                        e = st.value.args[0]
+                        if kind == "extend":
+                            new = [ast.copy_location(ast.Expr(value=ast.Call(func=ast.Attribute(value=copy.deepcopy(cst.value.func.value), attr="append", ctx=ast.Load()),
+                                                                            args=[e], keywords=[])), st)]
+                        else:
+                            tgt = cst.target.id
+
+                            class S(ast.NodeTransformer):
+                                def visit_Name(self, n, tgt=tgt, e=e):
+                                    return ast.copy_location(copy.deepcopy(e), n) if n.id == tgt and isinstance(n.ctx, ast.Load) else n
+                            new = [S().visit(copy.deepcopy(x)) for x in cst.body]
+                        idx = next(j for j, x in enumerate(bb) if x is st)
+                        bb[idx:idx + 1] = new
+        cb.remove(cst)
+        for b in _blocks(fn):
+            if inits[0] in b:
+                b.remove(inits[0])
+                if not b:
+                    b.append(ast.Pass())
+        ast.fix_missing_locations(fn)
+        done += 1
     # V = [t for t in SRC if C]; for t2 in V: BODY
     for v in sorted(unknown):
         names = [x for x in ast.walk(fn) if isinstance(x, ast.Name) and x.id == v]
